@@ -186,6 +186,9 @@ impl Sut for V {
         if let Err(p) = r {
             out.panic = Some(p);
         }
+        let flags: Vec<u8> = out.results.iter().map(|r| u8::from(r.is_ok())).collect();
+        crate::seams::log_obs("write", &flags);
+        crate::seams::log_num("write-end", u64::from(out.panic.is_some()), out.flush_marks.len() as u64);
         out
     }
 
@@ -284,6 +287,18 @@ impl Sut for V {
             out.panic = Some(p);
         }
         out.src = stats.borrow().clone();
+        crate::seams::log_num("read-open", u64::from(out.open.is_ok()), u64::from(out.panic.is_some()));
+        for r in &out.results {
+            match r {
+                RRes::Names(n) => crate::seams::log_obs("names", n.join("\n").as_bytes()),
+                RRes::Opened { size } => crate::seams::log_num("opened", *size, 0),
+                RRes::NotFound => crate::seams::log_num("notfound", 0, 0),
+                RRes::NoFile => crate::seams::log_num("nofile", 0, 0),
+                RRes::Bytes(b) => crate::seams::log_obs("bytes", b),
+                RRes::Hash(h) => crate::seams::log_obs("hash", h),
+                RRes::Err(_) => crate::seams::log_num("err", 0, 0),
+            }
+        }
         out
     }
 
@@ -332,6 +347,13 @@ impl Sut for V {
         }
         out.out_image = sink.data();
         out.src = stats.borrow().clone();
+        match &out.convert {
+            Some(Ok(st)) => {
+                crate::seams::log_obs("repair-status", st.stop.as_bytes());
+                crate::seams::log_obs("repair-unfinished", st.unfinished.clone().unwrap_or_default().join("\n").as_bytes());
+            }
+            other => crate::seams::log_num("repair-fail", u64::from(other.is_some()), u64::from(out.panic.is_some())),
+        }
         out
     }
 
@@ -368,7 +390,9 @@ impl Sut for V {
         }
         for (n, s) in &sinks {
             out.got.insert(n.clone(), s.data());
+            crate::seams::log_num("linear-got", s.len() as u64, 0);
         }
+        crate::seams::log_num("linear-end", u64::from(matches!(out.result, Some(Ok(())))), u64::from(out.panic.is_some()));
         out
     }
 
@@ -439,6 +463,13 @@ impl Sut for V {
         });
         if let Err(p) = r {
             out.panic = Some(p);
+        }
+        for r in &out.results {
+            match r {
+                LRes::Pos(p) => crate::seams::log_num("lpos", *p, 0),
+                LRes::Bytes(b) => crate::seams::log_obs("lbytes", b),
+                LRes::Err(_) => crate::seams::log_num("lerr", 0, 0),
+            }
         }
         out
     }
